@@ -506,6 +506,36 @@ Section Generic.
       unfold compiles_together_full. rewrite E. destruct ds; split; congruence.
     Qed.
 
+    (* a rejected build is rejected BY AN ASSERTION: the diagnostics contain a failing key-set or per-option assertion
+       (never only undeclared symbols, which is what F-OPTGUARD-KEYSET was) *)
+    Theorem reject_by_assertion_general o_s o_t ds :
+      keyset_guarded sup typ = true -> keysets_ok sav kss = true ->
+      in_domainb dom o_s = true -> in_domainb dom o_t = true ->
+      keys_documentedb kss o_s = true -> keys_documentedb kss o_t = true ->
+      compile_full sav sup typ o_s o_t = Some ds -> ds <> [] ->
+      In KeySetMismatch ds \/ exists k, In (Mismatch k) ds.
+    Proof.
+      intros Hg Hk Hs Ht Ds Dt E Hne.
+      pose proof (keys_documented_In _ Ds) as Is. pose proof (keys_documented_In _ Dt) as It.
+      destruct (keysets_ok_inj _ _ Hk Is It) as [(zs & Es) Inj].
+      destruct (keysets_ok_inj _ _ Hk It Is) as [(zt & Et) _].
+      unfold keyset_guarded in Hg.
+      destruct (sd_keyset sup) as [ns|] eqn:Ks; [|discriminate]. destruct (sd_keyset typ) as [nt|] eqn:Kt; [|discriminate].
+      unfold compile_full, keyset_diags, keyfp, keyset_text in E.
+      rewrite Kt, Ks, Hg, Es, Et, (compile_defined _ _ Hs Ht) in E. injection E as <-.
+      destruct (Z.eqb_spec zs zt) as [Ez|Ez]; [|left; left; reflexivity].
+      right. cbn [app] in Hne |- *.
+      assert (Ekeys : isort (map fst o_s) = isort (map fst o_t)) by (apply Inj; congruence).
+      destruct (flat_map _ _) as [|d ds'] eqn:Ef; [contradiction|].
+      assert (Hd : In d (flat_map (check_one (table (sd_name typ) o_s)) (table (sd_name typ) o_t))) by (rewrite Ef; left; reflexivity).
+      apply in_flat_map in Hd as ([[nm k] z] & Hin & Hd).
+      apply in_map_iff in Hin as ([k' v] & Eq & Hin). injection Eq as <- <- <-.
+      unfold check_one in Hd; cbn in Hd.
+      destruct (lookup_sym (sd_name typ, k') (table (sd_name typ) o_s)) as [z'|] eqn:L.
+      - destruct (Z.eqb z' (savz v)); [contradiction|]. destruct Hd as [<-|[]]. exists k'. left. reflexivity.
+      - exfalso. apply lookup_table_None in L. apply L. apply (isort_eq_In _ _ Ekeys). apply (in_map fst) in Hin. exact Hin.
+    Qed.
+
     (* in a tree without the fingerprint the complete diagnostics are the per-option ones *)
     Lemma compile_full_without_keyset o_s o_t :
       sd_keyset typ = None -> compile_full sav sup typ o_s o_t = compile sav sup typ o_s o_t.
@@ -648,9 +678,16 @@ Lemma cpp_keyset_guarded : keyset_guarded cpp_support_side cpp_type_side = true.
 Proof. vm_compute. reflexivity. Qed.
 
 (* ---- what is interpolated into the string literals of the assertion messages ---- *)
-Lemma msg_safe_spec sd : msg_literal_safe sd = true -> forall e, In e (sd_msg_exprs sd) -> In e safe_msg_exprs.
+Lemma msg_safe_spec sd : msg_literal_safe sd = true ->
+  forall e, In e (sd_msg_exprs sd) -> In e safe_msg_exprs \/ In e raw_path_msg_exprs.
 Proof.
-  unfold msg_literal_safe. rewrite forallb_forall. intros H e He. apply str_in_spec. apply H. assumption.
+  unfold msg_literal_safe. rewrite forallb_forall. intros H e He. specialize (H e He).
+  apply orb_prop in H as [H|H]; [left | right]; apply str_in_spec; assumption.
+Qed.
+
+Lemma msg_escaped_spec sd : msg_path_escaped sd = true -> forall e, In e (sd_msg_exprs sd) -> In e safe_msg_exprs.
+Proof.
+  unfold msg_path_escaped. rewrite forallb_forall. intros H e He. apply str_in_spec. apply H. assumption.
 Qed.
 
 Lemma all_messages_literal_safe :
@@ -659,7 +696,8 @@ Proof. vm_compute. reflexivity. Qed.
 
 (* an option value is never among the literal-safe expressions *)
 Lemma value_not_literal_safe :
-  str_in [118; 97; 108; 117; 101] safe_msg_exprs = false /\ str_in sav_expr safe_msg_exprs = false.
+  str_in [118; 97; 108; 117; 101] (safe_msg_exprs ++ raw_path_msg_exprs) = false /\
+  str_in sav_expr (safe_msg_exprs ++ raw_path_msg_exprs) = false.
 Proof. vm_compute. split; reflexivity. Qed.
 
 (* ---- the guard statements are live C / C++ ---- *)
@@ -712,3 +750,9 @@ Proof.
   - apply lookup_key_In. rewrite <- (H k (R1 _ Hin)). apply In_lookup_key; assumption.
   - apply lookup_key_In. rewrite (H k (R2 _ Hin)). apply In_lookup_key; assumption.
 Qed.
+
+(* ---- headers generated with --omit-serialization-support (no support header in the build) ---- *)
+Lemma guard_requires_support_header : sd_unless_omit c_type_side = true /\ sd_unless_omit cpp_type_side = true.
+Proof. vm_compute. split; reflexivity. Qed.
+Lemma omit_c_no_asserts o : compile_omit sav c_type_side o = Some [].
+Proof. reflexivity. Qed.
